@@ -243,6 +243,7 @@ func c16Uci(args []string) int {
 			recent = recent[1:]
 		}
 		in := map[string]interface{}{"line": line, "preceding": strings.Join(recent[:len(recent)-1], " ; ")}
+		setCurrent(in) // a panic in the search goroutine a go command starts cannot be recovered here: the driver reports this input
 		if strings.Contains(line, "Hash value") {
 			// keep allocations small: values above 64 MB are not sent to the real engine
 			f := strings.Fields(line)
